@@ -233,11 +233,12 @@ impl Cqueue {
         }
 
         use generator::Error;
-        match self.selectors.lock().unwrap()[id]
+        // don't keep the lock while joining and (maybe) re-throwing the panic,
+        // that would poison it for the drop
+        let handle = self.selectors.lock().unwrap()[id]
             .take()
-            .expect("join handler not set")
-            .join()
-        {
+            .expect("join handler not set");
+        match handle.join() {
             Ok(_) => {}
             Err(panic) => {
                 if let Some(err) = panic.downcast_ref::<Error>() {
@@ -334,16 +335,27 @@ impl Drop for Cqueue {
         // }
 
         // run the rest event
+        // a poll may re-throw the panic of a select coroutine, we still have to
+        // wait for all the others before the cqueue goes away
+        let mut panic_data = None;
         loop {
-            match self.poll(None) {
-                Ok(_) => {}
-                Err(_e @ PollError::Finished) => break,
-                _ => unreachable!("cqueue drop unreachable"),
+            match panic::catch_unwind(panic::AssertUnwindSafe(|| self.poll(None))) {
+                Ok(Ok(_)) => {}
+                Ok(Err(_e @ PollError::Finished)) => break,
+                Ok(_) => unreachable!("cqueue drop unreachable"),
+                Err(e) => {
+                    panic_data.get_or_insert(e);
+                }
             }
         }
         // we are sure that all the coroutines are finished
         if let Some(c) = cancel {
             c.enable_cancel();
+        }
+        if let Some(e) = panic_data {
+            if !std::thread::panicking() {
+                panic::resume_unwind(e);
+            }
         }
     }
 }
